@@ -347,8 +347,12 @@ pub fn observation_digest(w: &World) -> u64 {
 }
 
 pub fn run_once(t: &Task, ch: Chooser) -> RunOutcome {
+    run_once_menu(t, menu(), ch)
+}
+
+pub fn run_once_menu(t: &Task, menu: Menu, ch: Chooser) -> RunOutcome {
     let topo = drive::topo_named(&t.cell, t.topo);
-    let net = drive::net_cfg(&t.cell, &t.params, topo, menu());
+    let net = drive::net_cfg(&t.cell, &t.params, topo, menu);
     drive::run_trace(&t.cell, &t.params, net, ch)
 }
 
@@ -633,8 +637,12 @@ pub fn replay(path: &str) -> i32 {
 }
 
 pub fn replay_as(path: &str, prop: &str) -> i32 {
+    replay_as_menu(path, prop, menu())
+}
+
+pub fn replay_as_menu(path: &str, prop: &str, menu: Menu) -> i32 {
     let (t, choices) = load_task(path);
-    let o = run_once(&t, Chooser::new(&choices, 100_000));
+    let o = run_once_menu(&t, menu, Chooser::new(&choices, 100_000));
     println!("replay {prop}: cell={} topo={} tcp_connect_timeout={:?} choices={:?}", t.cell.name(), t.topo, t.params.tcp_connect_timeout, choices);
     print_trace(&o);
     let bad = judge(&t, &o);
